@@ -12,6 +12,7 @@ size and the number of points are universally quantified.
 import Kap.Proofs.C07TreeLive
 import Kap.Proofs.C07TreeMeasure
 import Kap.Proofs.C07TreeCons
+import Kap.Proofs.C07TreeLossless
 namespace Kap.Props.C07Tree
 open Kap.C07 Kap.C07.Tree
 
@@ -160,16 +161,55 @@ example :
        .write, .forkTake, .forkLock, .forkPut, .node 0 .take, .node 0 .putErr]).map
       (fun s => s.nodes.map (fun nd => (nd.got, nd.ent, nd.dropped, nd.owed))) = some [(3, 3, 1, 0), (1, 2, 1, 0), (1, 2, 0, 0)] := by decide
 
-/-! ### Stated, not proved, for trees -/
+/-! ### Everything accepted is delivered, in every branch: trees of pass / httpPost / alert nodes stopped by `Close` -/
 
-/-- Graceful stop delivers everything on a tree of pass / httpPost / alert nodes stopped by `TaskMaster.Close`: once
-the stop has returned and the goroutines are gone, every output in every branch has been handed exactly the accepted
-points. (Proved for chains: `Kap.Props.C07.stop_delivers_all_partial`; on trees checked on the real code by the
-gated / immediate fork cases, whose prediction from the tree model is the one-point interval.) -/
-def stop_delivers_all_tree_stmt : Prop :=
-  ∀ (cfg : Cfg) (par : List Nat) (kinds : List Kind) (n : Nat) (sched : List Act),
-    cfg.viaClose = true → cfg.barrierGuard = true → wfPar par kinds.length = true → (∀ k ∈ kinds, losslessKind n k = true) →
+/-- **Graceful stop delivers everything on a tree**: any well-formed tree of pass / httpPost / alert nodes (handler
+queues large enough for the run), any fan-out, stopped by `TaskMaster.Close`, under EVERY schedule: once the stop has
+returned and the goroutines are gone, every output in every branch has been handed exactly the accepted points.
+Excluded by hypothesis, because false (counterexamples in Kap.Props.C07): influxDBOut, UDF and loopback nodes, failing
+nodes (`others_still_terminate_tree`), and StopTask/DeleteTask. -/
+theorem stop_delivers_all_tree (cfg : Cfg) (par : List Nat) (kinds : List Kind) (n : Nat) (sched : List Act)
+    (hclose : cfg.viaClose = true) (hg : cfg.barrierGuard = true) (hwf : wfPar par kinds.length = true)
+    (hk : ∀ k ∈ kinds, losslessKind n k = true) :
     let s := Tree.run cfg par (init kinds n) sched
-    s.stopped = true → holds (outcomeOf s) = true ∧ (outcomeOf s).delivered.all (· = s.accepted) = true
+    s.stopped = true → holds (outcomeOf s) = true ∧ (outcomeOf s).delivered.all (· = s.accepted) = true := by
+  intro s hst
+  have hl : TLossless n cfg par s := tlossless_run (tlossless_init cfg par kinds n hclose hk) sched
+  have hlen : s.nodes.length = kinds.length := by
+    have := trun_nodes_length (cfg := cfg) (par := par) (s := init kinds n) sched
+    rw [this]; simp [init]
+  have hwf' : wfPar par s.nodes.length = true := by rw [hlen]; exact hwf
+  exact ⟨tlossless_holds hl hwf' hst (tnopanic_run hg (nopanic_init kinds n) sched), tlossless_delivered hl hwf' hst⟩
+
+set_option maxRecDepth 20000 in
+/-- Non-vacuity: `stream → from → { httpPost ; alert → httpPost }`, 2 points, edge buffers of one slot, Close requested
+against a backlog in the pipeline: a schedule reaches a stopped state, and all three outputs got both points. -/
+example :
+    let cfg : Cfg := { cap := 1, viaClose := true, hookLock := false, alertLeak := false }
+    let kinds := [Kind.pass, .pass, .post, .alert 5, .post]
+    let par := [0, 0, 1, 1, 3]
+    wfPar par kinds.length = true ∧ (∀ k ∈ kinds, losslessKind 2 k = true) ∧
+    ∃ sched, (Tree.run cfg par (init kinds 2) sched).stopped = true ∧
+      (outcomeOf (Tree.run cfg par (init kinds 2) sched)).delivered = [2, 2, 2] := by
+  refine ⟨by decide, by decide, ?_⟩
+  let nodeRound (i : Nat) : List Act :=
+    [.node i .init, .node i .handle, .node i .put, .node i .take, .node i .exit, .node i .closeOut, .node i .helperExit]
+  let round : List Act := [.stop, .forkTake, .forkLock, .forkPut, .forkExit, .thrExit] ++
+    nodeRound 4 ++ nodeRound 3 ++ nodeRound 2 ++ nodeRound 1 ++ nodeRound 0
+  exact ⟨[.write, .forkTake, .write] ++ (List.replicate 19 round).flatten, by decide, by decide⟩
+
+/-- **Graceful stop, complete, on trees**: for the trees of `stop_delivers_all_tree` every schedule that cannot be
+extended ends in a state of which the WHOLE property holds (stop returned, no goroutine left, every output in every
+branch was handed every accepted point). -/
+theorem close_stops_and_delivers_tree (cfg : Cfg) (par : List Nat) (kinds : List Kind) (n : Nat) (sched : List Act)
+    (hhook : cfg.hookLock = false) (hleak : cfg.alertLeak = false) (hea : cfg.influxEarlyAbort = false)
+    (hcap : 1 ≤ cfg.cap) (hne : kinds ≠ []) (hwf : wfPar par kinds.length = true)
+    (hclose : cfg.viaClose = true) (hg : cfg.barrierGuard = true) (hk : ∀ k ∈ kinds, losslessKind n k = true) :
+    let s := Tree.run cfg par (init kinds n) sched
+    TQuiescent cfg par s → holds (outcomeOf s) = true := by
+  intro s hq
+  have h := stop_terminates_tree cfg par kinds n sched hhook hleak hea hcap hne hwf
+    (fun k hm => losslessKind_not_loop (hk k hm)) (fun k hm => losslessKind_not_udf (hk k hm)) hq
+  exact (stop_delivers_all_tree cfg par kinds n sched hclose hg hwf hk h.1).1
 
 end Kap.Props.C07Tree
